@@ -32,6 +32,8 @@ BUILTIN_EXC = {
     "NameError": "Exception", "RuntimeError": "Exception", "NotImplementedError": "RuntimeError",
     "OverflowError": "ArithmeticError", "AssertionError": "Exception", "OSError": "Exception",
     "ImportError": "Exception", "UserWarning": "Exception", "DeprecationWarning": "Exception",
+    "GeneratorExit": "BaseException", "EOFError": "Exception", "FileNotFoundError": "OSError", "IOError": "OSError",
+    "EnvironmentError": "OSError", "UpstreamError": "Exception",
 }
 
 MUTATORS = {"append", "extend", "pop", "insert", "update", "appendleft", "popleft", "clear", "remove", "sort",
@@ -154,6 +156,12 @@ class Interp(object):
             if head in ("Val", "Key"):
                 reg.need_val()
             return Opaque(reg.new(name, head))
+        if head == "Lib":
+            # a field holding a library function (e.g. self._dump = pickle.dump)
+            impl = self.contracts.lib.get(args[0])
+            if impl is None:
+                raise Unsupported("no library contract for " + args[0])
+            return Fun("lib", name=args[0], mod="", impl=impl)
         if head == "Dict":
             # a mutable dictionary-like value passed by reference (the argument may also be a scalar: isdict() tells)
             reg.need_val()
@@ -676,6 +684,18 @@ class Interp(object):
             return [(s, v)]
         if isinstance(op, ast.Add) and isinstance(a, Str) and isinstance(b, Str):
             return [(s, Str(a.s + b.s))]
+        if isinstance(op, ast.Add) and (isinstance(a, Opaque) and a.sort == "Key" or isinstance(b, Opaque) and b.sort == "Key") \
+                and isinstance(a, (Str, Opaque)) and isinstance(b, (Str, Opaque)):
+            # string concatenation with a symbolic string: a function of both parts; appending a non-empty literal
+            # gives a different string
+            f = self.reg.ufun("kcat", ["Key", "Key"], "Key")
+            ta, tb = self.key_term(a), self.key_term(b)
+            r = T("(%s %s %s)" % (f, ta.s, tb.s), "Key")
+            if isinstance(b, Str) and b.s:
+                s.assume(NOT(EQ(r, ta)))
+            if isinstance(a, Str) and a.s:
+                s.assume(NOT(EQ(r, tb)))
+            return [(s, Opaque(r))]
         if isinstance(op, ast.Mod) and isinstance(a, Str):
             return [(s, Str("<formatted>"))]
         x, y = self.num(a), self.num(b)
@@ -1132,4 +1152,4 @@ class Interp(object):
 BUILTINS = {"len", "range", "enumerate", "zip", "isinstance", "hasattr", "callable", "getattr", "int", "float",
             "bool", "list", "tuple", "iter", "next", "all", "any", "sum", "min", "max", "abs", "reversed", "str",
             "repr", "print", "sorted", "map", "dict", "object", "super", "type", "slice", "set", "setattr", "id",
-            "filter", "round"}
+            "filter", "round", "open"}
